@@ -1,5 +1,5 @@
 //! Random version strings: token soup over everything the tokeniser distinguishes.
-use crate::util::Rng;
+use crate::util::{rare_char, Rng};
 
 const MODS: [&str; 12] = ["alpha", "beta", "rc", "pre", "pl", "nb", "ALPHA", "Beta", "RC", "Pre", "PL", "NB"];
 const PUNCT: [&str; 12] = ["+", "~", "-", ":", "/", " ", "@", "!", ",", "=", "*", "^"];
@@ -33,7 +33,7 @@ pub fn token(rng: &mut Rng, wild: bool) -> String {
             if rng.chance(1, 3) { c.to_ascii_uppercase().to_string() } else { c.to_string() }
         }
         17 => rng.pick(&PUNCT).to_string(),
-        18 => rng.pick(&UNI).to_string(),
+        18 => if rng.chance(1, 4) { rare_char(rng).to_string() } else { rng.pick(&UNI).to_string() },
         _ => if wild { rng.pick(&["<", ">", "{", "}", "[", "?"]).to_string() } else { "0".to_string() },
     }
 }
@@ -46,8 +46,31 @@ pub fn max_digit_run(s: &str) -> usize {
     best
 }
 
+/// Scale: versions longer than any fixed-size table, inline key or narrow counter an
+/// implementation might use (more than 32 / 64 / 256 components, more than 64 / 128 / 1024 bytes);
+/// digit runs stay within 18 digits.
+pub fn long(rng: &mut Rng) -> String {
+    let k = *rng.pick(&[31usize, 32, 33, 40, 63, 64, 65, 70, 127, 128, 130, 255, 256, 257, 300, 520, 1100, 4096, 4200]);
+    match if k > 600 { 0 } else { rng.below(4) } {
+        // 1.0.0 ... 0.N : significant only at the far end
+        0 => format!("{}{}{}", rng.range(0, 9), ".0".repeat(k), rng.pick(&["", ".1", ".7", "nb1", "rc1", "a", ".0", ".1nb5", "nb4"])),
+        // long and significant everywhere
+        1 => (0..k).map(|i| if i == 0 { format!("{}", rng.range(0, 3)) } else { format!(".{}", rng.range(0, 3)) }).collect(),
+        // a token soup of k tokens
+        2 => loop {
+            let v: String = (0..k.min(300)).map(|_| token(rng, false)).collect();
+            if max_digit_run(&v) <= 18 { break v; }
+        },
+        // zero components written in different ways
+        _ => format!("{}{}{}", rng.range(1, 9), rng.pick(&["._", "..", "_.", ".0_"]).repeat(k / 2), rng.pick(&["", "1", "alpha", "pl"])),
+    }
+}
+
 /// C01's domain: digit runs of at most 18 digits (unless wild)
 pub fn version(rng: &mut Rng, wild: bool) -> String {
+    if rng.chance(1, 50) {
+        return long(rng);
+    }
     loop {
         let n = match rng.below(8) { 0 => 0, 1..=4 => rng.range(1, 4), 5..=6 => rng.range(5, 8), _ => rng.range(9, 12) };
         let v: String = (0..n).map(|_| token(rng, wild)).collect();
@@ -68,6 +91,20 @@ pub fn mutate(rng: &mut Rng, v: &str, wild: bool) -> String {
 }
 fn mutate1(rng: &mut Rng, v: &str, wild: bool) -> String {
     let chars: Vec<char> = v.chars().collect();
+    // the same version without one of its characters that the rule ignores (must tie with it)
+    let ignored: Vec<usize> = (0..chars.len()).filter(|&i| !chars[i].is_ascii()).collect();
+    if !ignored.is_empty() && rng.chance(1, 4) {
+        let mut c = chars.clone();
+        c.remove(ignored[rng.below(ignored.len())]);
+        return c.into_iter().collect();
+    }
+    // a long version and one of the same length that differs from it only at the far end
+    if chars.len() > 64 && rng.chance(1, 2) {
+        let mut c = chars.clone();
+        let i = c.len() - 1 - rng.below(3.min(c.len()));
+        c[i] = if c[i] == '1' { '2' } else { '1' };
+        return c.into_iter().collect();
+    }
     match rng.below(8) {
         0 => v.to_string(),
         1 => v.to_uppercase(),
